@@ -234,12 +234,14 @@ class SweepMonStream(MonStream):
         names = [x[2] for x in d["expo"]]
         for i in d["mon"]:
             sol.monitor_structure(sts[i], name=f"M{i}")
-        kw = {"PS": np.array(d["sweep"])}
+        buf = np.array(d["sweep"], float)
+        kw = {"PS": buf}
         if d["second"] == "scalar":
             kw["wl"] = 1.25
         elif d["second"] == "len1":
             kw["wl"] = np.array([1.25])
         mod = sol.solve(**kw)
+        buf += 0.25          # the caller re-uses its sweep buffer: the result is a snapshot of the values it was solved at
         exc = {n: complex(*v) for n, v in d["exc"].items()}
         tab = mod.get_monitor(dict(exc), power=d["power"])
         ns = len(d["sweep"])
